@@ -356,7 +356,7 @@ def install(reg: Registry):
                      defs=lambda c: [f for nm, f in fold_defs(c.old, c.self) if nm.endswith('.def')],
                      ensures=lambda c: post(c, c.res, c.h), modifies=CONTAINER_ARRAYS, allocates=True,
                      decreases=lambda c: depth(c.asset_type), loops={0: LoopSpec(inv)},
-                     locals_ty={'attack_steps': STEPS_RESULT}, call_lemmas={'deepcopy': dc_hint}, props=('C03', 'C16', 'C02'),
+                     locals_ty={'attack_steps': STEPS_RESULT}, call_lemmas={'deepcopy': dc_hint}, props=('C03', 'C16', 'C02', 'C01'),
                      may_raise=(),
                      note='proved: the fold of the property statement — the result has exactly the step names the type declares or inherits; each '
                           'entry is a copy (ghost origin map) of its base declaration (nearest overriding declaration, else the top-most one); its '
